@@ -5,7 +5,8 @@ the same evidence file):
   * whole-crate inventories (panic-site census, unwrap-on-QueryError census) - reported, not armed;
   * checker validation: every catalogue mutant that names this property is applied to a scratch copy
     of /repo, facts are re-dumped and the named rule must report the named instance; a missed mutant
-    is a broken checker (exit 2).
+    is a broken checker (exit 2).  The same for the independently seeded changes (seeded/index.json)
+    and, on the silent side, for the behaviour-preserving variants (mutants/equivalent).
 """
 import collections
 import json
@@ -103,3 +104,18 @@ def validate_mutants(ctx):
     if r2.returncode != 0 or loud:
         raise core.CheckerError('checker validation: false alarm on behaviour-preserving variants: %s\n%s'
                                 % (loud, r2.stdout[-1500:]))
+    # firing side 2: the independently seeded changes that break this property
+    out3 = os.path.join(facts.CACHE, 'seed_results_%s_%d.json' % (ctx.prop, os.getpid()))
+    r3 = subprocess.run([sys.executable, os.path.join(facts.VERIF, 'tools', 'run_seeds.py'),
+                         '--prop', ctx.prop, '--json', out3], capture_output=True, text=True, env=env)
+    sd = json.load(open(out3)) if os.path.exists(out3) else []
+    if os.path.exists(out3):
+        os.unlink(out3)
+    ctx.extra['checker_validation']['seeded_changes'] = {
+        'run': len(sd), 'as_expected': sum(1 for x in sd if x.get('as_expected')),
+        'results': [{'seed': x['seed'], 'as_expected': x['as_expected'],
+                     'keys': {p: v['keys'][:2] for p, v in x.get('results', {}).items()}} for x in sd]}
+    off = [x['seed'] for x in sd if not x.get('as_expected')]
+    if r3.returncode != 0 or off:
+        raise core.CheckerError('checker validation: seeded changes not reported as recorded: %s\n%s'
+                                % (off, r3.stdout[-1500:]))
